@@ -13,12 +13,13 @@ for p in $(python3 -c "import sys; sys.path.insert(0,'/verif'); from vf.properti
 done
 # a `finding:` line that no check reports any more is stale (the defect was repaired or the class string changed): list it
 python3 - <<'PY'
-import sys, re
+import sys, re, json
 sys.path.insert(0, '/verif')
 from vf.main import load_known
 known, _ = load_known()
 hits = open('/verif/build/known_hits.txt').read()
-stale = [k for k in known if ("property=%s %s input=%s" % (k["property"], k["obligation"], k["input"])) not in hits]
+thorough_only = {json.loads(l[len("finding:"):])["input"] for l in open("/verif/known_findings.txt") if l.startswith("finding: {") and json.loads(l[len("finding:"):]).get("tier") == "thorough"}
+stale = [k for k in known if k["input"] not in thorough_only and ("property=%s %s input=%s" % (k["property"], k["obligation"], k["input"])) not in hits]
 print("known findings: %d listed, %d reported by the quick checks, %d stale" % (len(known), len(known) - len(stale), len(stale)))
 for k in stale: print("  STALE finding: property=%s unit=%s obligation=%r input=%r" % (k["property"], k["unit"], k["obligation"][:80], k["input"][:80]))
 PY
